@@ -120,11 +120,11 @@ def gen_case(rng, want=None):
             spec["target_throughput"] = rng.choice([0.5, 1, 2, 10, 100, 1000, 7.5])
             step = max(step, clients / spec["target_throughput"])
         elif th == "tp-ops":
-            v = rng.choice([1, 5, 20, 250])
+            v = rng.choice([1, 5, 20, 250, 2.5, 0.5, 12.75])  # a string target may carry a fraction
             spec["target_throughput"] = f"{v} ops/s"
             step = max(step, clients / v)
         elif th == "tp-unit":
-            v = rng.choice([1, 10, 500, 5000])
+            v = rng.choice([1, 10, 500, 5000, 7.5, 0.25])
             spec["target_throughput"] = f"{v} {unit}/s"
             step = max(step, clients / v)
         elif th == "interval":
